@@ -15,6 +15,7 @@ from lib import common
 from lib.common import OblResult, Failure, DISCHARGED, REFUTED, UNDECIDED, ERROR
 
 LEDGER = os.path.join(common.VERIF, 'ledger', 'obligations.lock.json')
+GENERIC_FAMILIES = ('frame.', 'no-exception.', 'type:', 'pre:')
 
 TRUSTED_BASE = [
     'PyVC (self-built VC generator, /verif/pyvc): encoding of Python semantics per DESIGN.md 2.4',
@@ -126,7 +127,13 @@ def results_for_property(prop: str, tier: str, only: Optional[str] = None,
     if only:
         targets = [t for t in targets if only in t] or targets
     raw = run_targets(targets, tier)
-    ledger = set(load_ledger().get('discharged', []))
+    led = load_ledger()
+    ledger = set(led.get('discharged', []))
+    # functions all of whose obligations were discharged on the pinned tree: a refuted obligation of
+    # a generic family (frame / undeclared exception / typing / callee precondition) that did not
+    # exist there — because the offending store, raise or call did not exist — also counts as
+    # "passed on the pinned tree and fails now"
+    fully = set(led.get('fully_discharged_functions', []))
     results: List[OblResult] = []
     fuc, inlined, used = [], set(), set()
     notes = []
@@ -194,7 +201,7 @@ def results_for_property(prop: str, tier: str, only: Optional[str] = None,
                     o.verdict = UNDECIDED
                     o.detail = ('refuted under the encoding but the decoded input satisfies the contract '
                                 'natively (abstraction artefact): ' + c['detail'])
-                elif lid in ledger:
+                elif lid in ledger or (t in fully and cname.startswith(GENERIC_FAMILIES)):
                     o.failures.append(Failure(
                         obligation=oid, key=cname,
                         message=(f'obligation {lid} was discharged on the pinned tree and is now refuted by '
@@ -240,7 +247,10 @@ def write_ledger():
         if r['error'] or r['unsupported']:
             others[t] = (r['error'] or r['unsupported'])[:300]
     os.makedirs(os.path.dirname(LEDGER), exist_ok=True)
-    doc = {'source_hash': common.repo_source_hash(), 'discharged': sorted(discharged), 'not_discharged': others}
+    fully = [t for t in targets if raw[t]['clauses'] and not raw[t]['error'] and not raw[t]['unsupported']
+             and all(c['verdict'] == 'discharged' for c in raw[t]['clauses'].values())]
+    doc = {'source_hash': common.repo_source_hash(), 'discharged': sorted(discharged),
+           'fully_discharged_functions': sorted(fully), 'not_discharged': others}
     json.dump(doc, open(LEDGER, 'w', encoding='utf8'), indent=1)
     return doc
 
